@@ -101,6 +101,11 @@ def jobs(tier, seed):
     chunk = 12
     for i in range(0, len(vecs), chunk):
         out.append(dict(h="getitem", vectors=vecs[i:i + chunk], label=f"getitem:vectors[{i}:{i + chunk}]"))
+    # large members: running totals beyond the int8 / int16 / uint16 ranges (the index stays symbolic over the whole collection)
+    big = [[127, 1], [128, 0, 1], [100, 100, 100], [255, 0, 2], [20000, 0, 12768], [32767, 1], [32768], [40000, 3], [1, 65535, 2]]
+    if tier != "quick":
+        big += [[70000, 1, 70000], [0, 32768, 0, 32768], [2 ** 17, 5]]
+    out.append(dict(h="getitem", vectors=big, label="getitem:large members"))
     out[0]["twin"] = True
     return out
 
@@ -189,8 +194,8 @@ META = dict(
     functions=["MazeDatasetCollection.__init__", "__getitem__", "__len__", "dataset_lengths", "dataset_cum_lengths", "mazes", "update_self_config",
                "MazeDatasetCollectionConfig.n_mazes"],
     bounds=dict(quick="global index symbolic (0 <= i < len); all member-length vectors over 0..3 for 1..3 members, 48 vectors for 4 members; "
-                      "member names distinct and all-equal; member grid sizes 2..4",
-                thorough="all vectors over 0..4 for 1..4 members plus 306 vectors for 5 members"),
+                      "member names distinct and all-equal, member configurations with stale counts; member grid sizes 2..4; 9 vectors with large members (running totals past 127, 255, 32767, 65535)",
+                thorough="all vectors over 0..4 for 1..4 members plus 306 vectors for 5 members; 12 vectors with large members"),
     degenerate=dict(getitem="the length vector is enumerated (len() must return a Python int); the index is symbolic within each vector, "
                             "a path covers all indices that fall into one member"),
     stubs=["np -> symbolic shim in maze_dataset.dataset.collected_dataset (np.searchsorted on the cumulative lengths)",
